@@ -25,7 +25,7 @@ ASSUMPTIONS = ['live SQLite in-memory', 'cold = new Database and entity classes 
                'code objects)', 'metamorphic oracle: Pony compared with itself under a different cache history (the property '
                'is itself a metamorphic relation)']
 SHARDS = {'quick': 4, 'thorough': 16}
-MIN_EVALS = {'quick': 300, 'thorough': 6000}
+MIN_EVALS = {'quick': 1000, 'thorough': 20000}
 
 
 def clear_process_caches():
@@ -229,6 +229,62 @@ def _lib():
         A = E['A']
         return select(x for x in A).order_by(lambda x: (x.n * p, x.id))[:]
 
+    @reg('variant')
+    def distinct_variant(E, db, p):
+        # one generator code object, three distinct-ness variants: the SQL cache key must include the override
+        B = E['B']
+        q = select(x.n for x in B)
+        if p == 1:
+            q = q.without_distinct()
+        elif p == 2:
+            q = q.distinct()
+        return sorted(q[:])
+
+    @reg('variant')
+    def distinct_variant_str(E, db, p):
+        B = E['B']
+        q = select('(x.n, x.s) for x in B', {'B': B}, {})
+        if p == 1:
+            q = q.without_distinct()
+        elif p == 2:
+            q = q.distinct()
+        return sorted(q[:])
+
+    @reg('bound')
+    def kwargs_after_pinned(E, db, p):
+        # keyword filter chained after a query whose translation is pinned to a parameter value
+        A = E['A']
+        return select(x for x in A if x.s[:p] == 'a').filter(n=1)[:]
+
+    @reg('bound')
+    def where_kwargs_after_pinned(E, db, p):
+        A = E['A']
+        return select((x.id, x.s[p:]) for x in A).where(n=-2)[:]
+
+    @reg('attrname')
+    def kwargs_after_getattr(E, db, p):
+        A = E['A']
+        return select(x.id for x in A if getattr(x, p) == 1).filter(s='a')[:]
+
+    @reg('scalar')
+    def lambda_filter_twice(E, db, p):
+        # the same lambda code object applied twice with different captured values
+        A = E['A']
+        def ne(q, v):
+            return q.filter(lambda x: x.n != v)
+        q = ne(ne(A.select(), 1), p if isinstance(p, int) and not isinstance(p, bool) else 2)
+        return q[:]
+
+    @reg('entity_b')
+    def m2m_members(E, db, p):
+        C = E['C']
+        return select(x.id for x in C if p in x.bs)[:]
+
+    @reg('entity_b')
+    def m2m_count(E, db, p):
+        C = E['C']
+        return select((x.id, count(x.bs)) for x in C)[:]
+
     @reg('scalar')
     def hybrid_dynamic(E, db, p):
         # a helper function created per call and released afterwards: caches keyed by id(func) must not be confused
@@ -262,7 +318,7 @@ ATTRNAMES = ['n', 'on', 's', 'os', 'id', 'zz']
 
 
 def param_values(kind):
-    return {'scalar': SCALARS, 'str': STRS, 'list': LISTS, 'bound': BOUNDS, 'attrname': ATTRNAMES, 'entity': [1, 2, 3, None]}[kind]
+    return {'variant': [0, 1, 2], 'entity_b': [1, 2, 3], 'scalar': SCALARS, 'str': STRS, 'list': LISTS, 'bound': BOUNDS, 'attrname': ATTRNAMES, 'entity': [1, 2, 3, None]}[kind]
 
 
 @st.composite
@@ -278,6 +334,9 @@ def cases(draw):
         if k == 0:
             steps.append({'op': 'update', 'id': draw(st.integers(1, 4)), 'n': draw(st.sampled_from(qgen.INTS)),
                           'new_session': draw(st.booleans())})
+        elif k == 1 and draw(st.booleans()):
+            steps.append({'op': 'link', 'b': draw(st.integers(1, 5)), 'c': draw(st.integers(1, 2)),
+                          'new_session': draw(st.integers(0, 3)) == 0})
         elif k == 1:
             steps.append({'op': 'create', 'n': draw(st.sampled_from(qgen.INTS)), 's': draw(st.sampled_from(['a', 'ab', 'q'])),
                           'new_session': draw(st.booleans())})
@@ -287,6 +346,13 @@ def cases(draw):
             vals = param_values(kind)
             steps.append({'op': 'call', 'fn': name, 'p': draw(st.integers(0, len(vals) - 1)),
                           'new_session': draw(st.integers(0, 2)) == 0})
+    if draw(st.integers(0, 2)) == 0:
+        # result cache vs a many-to-many-only change: the same query, same parameter, around a link change, one session
+        fn = draw(st.sampled_from(['m2m_members', 'm2m_count']))
+        pb = draw(st.integers(0, 2))
+        steps.append({'op': 'call', 'fn': fn, 'p': pb, 'new_session': True})
+        steps.append({'op': 'link', 'b': pb + 1, 'c': draw(st.integers(1, 2)), 'new_session': False})
+        steps.append({'op': 'call', 'fn': fn, 'p': pb, 'new_session': False})
     return {'data': data, 'steps': steps}
 
 
@@ -296,6 +362,14 @@ def apply_mod(step, data):
         for r in data['A']:
             if r['id'] == step['id']:
                 r['n'] = step['n']
+    elif step['op'] == 'link':
+        if any(r['id'] == step['b'] for r in data['B']):
+            for r in data['C']:
+                if r['id'] == step['c']:
+                    if step['b'] in r['bs']:
+                        r['bs'].remove(step['b'])
+                    else:
+                        r['bs'] = sorted(r['bs'] + [step['b']])
     elif step['op'] == 'create':
         nid = max([r['id'] for r in data['A']] + [0]) + 1
         data['A'].append({'id': nid, 'n': step['n'], 'on': None, 's': step['s'], 'os': ''})
@@ -307,6 +381,14 @@ def pony_mod(step, classes):
         o = A.get(id=step['id'])
         if o is not None:
             o.n = step['n']
+    elif step['op'] == 'link':
+        b = classes['B'].get(id=step['b'])
+        c = classes['C'].get(id=step['c'])
+        if b is not None and c is not None:
+            if b in c.bs:
+                c.bs.remove(b)
+            else:
+                c.bs.add(b)
     elif step['op'] == 'create':
         from pony.orm import max as pmax
         nid = (pmax(x.id for x in A) or 0) + 1
@@ -316,6 +398,8 @@ def pony_mod(step, classes):
 def resolve_param(step, classes):
     kind, fn = lib()[step['fn']]
     v = param_values(kind)[step['p']]
+    if kind == 'entity_b':
+        return classes['B'].get(id=v)
     if kind == 'entity':
         if v is None:
             return None
@@ -329,7 +413,7 @@ def call_step(step, classes, db):
     kind, fn = lib()[step['fn']]
     try:
         p = resolve_param(step, classes)
-        if kind == 'entity' and p is None and param_values(kind)[step['p']] is not None:
+        if kind in ('entity', 'entity_b') and p is None and param_values(kind)[step['p']] is not None:
             return ('skipped', 'no such object')
         res = fn(classes, db, p)
         if isinstance(res, (list, tuple)) or hasattr(res, '__iter__') and not isinstance(res, str):
@@ -450,7 +534,7 @@ def nontrivial(case):
         kind = lib()[s['fn']][0]
         v = param_values(kind)[s['p']]
         key = s['fn']
-        t = (type(v).__name__, v if kind in ('bound', 'attrname') else None)
+        t = (type(v).__name__, v if kind in ('bound', 'attrname', 'variant') else None)
         if key in seen and (seen[key] != t or modified):
             return True
         seen[key] = t
@@ -470,7 +554,7 @@ def run(ctx):
             ctx.count('fn:' + s['fn'])
         if msg:
             ctx.fail(case, msg)
-    ctx.run_test(t, dict(case=cases()), max_examples=ctx.scale(250, 2500), name='C05')
+    ctx.run_test(t, dict(case=cases()), max_examples=ctx.scale(600, 3000), name='C05')
 
 
 def replay(case):
